@@ -25,6 +25,12 @@ ARITH = {
     'f': (4, ['float']), 'd': (8, ['double']), 'D': (16, ['long double']),
 }
 INT_TAGS = 'bsilBSIL'
+# durations a system_clock time point can hold: ns per tick and width of the tick count (whatever the duration, the logged value
+# is the time since the epoch in nanoseconds as a 64-bit integer)
+TIME_POINT_DURATIONS = {'std::chrono::nanoseconds': (1, 64), 'std::chrono::microseconds': (1000, 64), 'std::chrono::seconds': (10 ** 9, 64),
+                        'std::chrono::duration<std::int32_t>': (10 ** 9, 32),
+                        'std::chrono::duration<int, std::ratio<60>>': (60 * 10 ** 9, 32),
+                        'std::chrono::duration<std::int16_t, std::ratio<86400>>': (86400 * 10 ** 9, 16)}
 SIGNED = 'bsilc'
 
 
@@ -118,13 +124,14 @@ class Gen:
 
     def rand_enum(self):
         r = self.rng
-        c = r.choice(INT_TAGS)
+        # underlying types: the eight integer tags, and char / bool (enum class Side : char { Buy = 'B' }; their tags are c / y)
+        c = r.choice(INT_TAGS + INT_TAGS + 'cy')
         size = ARITH[c][0]
         n = r.choice([0, 1, 2, 3, 5])
         vals = set()
         for _ in range(n):
             v = r.choice([0, 1, 2, 123, 255, r.randrange(1 << (8 * size))])
-            vals.add(v % (1 << (8 * size)))
+            vals.add(v % (2 if c == 'y' else 1 << (8 * size)))
         ens = []
         for v in sorted(vals):
             ens.append((hex_of(c, v), 'e%d' % len(ens)))
@@ -189,7 +196,7 @@ class Gen:
             if ty[3] and r.random() < 0.7:
                 h = r.choice(ty[3])[0]
                 return ('n', raw_of_hex(ty[1], h))
-            return ('n', r.randrange(1 << (8 * size)))
+            return ('n', r.randrange(2 if ty[1] == 'y' else 1 << (8 * size)))
         if k == 'Q':
             n = r.choice([0, 0, 1, 2, 3, 5, 33, 40] if depth < 2 else [0, 1, 2, 3])
             if ty[1] == ('A', 'y') and depth < 3 and r.random() < 0.5:
@@ -366,7 +373,7 @@ class Gen:
             rep = r.choice(ARITH[ty[2][0][1][1]][1])
             return {'ty': ty, 'cxx': 'std::chrono::duration<%s, %s>' % (rep, period), 'kind': 'adapter', 'adapter': 'duration', 'rep': rep}
         if name == 'std::chrono::system_clock::time_point':
-            dur = r.choice(['std::chrono::nanoseconds', 'std::chrono::microseconds', 'std::chrono::seconds'])
+            dur = r.choice(list(TIME_POINT_DURATIONS)[3:] if getattr(self, 'narrow_time_points', False) else list(TIME_POINT_DURATIONS))
             return {'ty': ty, 'cxx': 'std::chrono::time_point<std::chrono::system_clock, %s>' % dur, 'kind': 'adapter', 'adapter': 'time_point', 'dur': dur}
         if name == 'binlog::address':
             return {'ty': ty, 'cxx': r.choice(['binlog::address', 'void*', 'const void*']), 'kind': 'adapter', 'adapter': 'address'}
@@ -855,9 +862,11 @@ def canon_adapter_value(rt, val):
     if a == 'time_point':
         ns = val[1][0][1]
         sns = ns - (1 << 64) if ns >= 1 << 63 else ns
-        div = {'std::chrono::nanoseconds': 1, 'std::chrono::microseconds': 1000, 'std::chrono::seconds': 10 ** 9}[rt['dur']]
+        div, bits = TIME_POINT_DURATIONS[rt['dur']]
         # the time point holds its own duration type: what is logged is that duration converted back to ns (truncation toward zero)
         q = abs(sns) // div * (1 if sns >= 0 else -1)
+        if not (-(1 << (bits - 1)) <= q < (1 << (bits - 1))):
+            q = q % 1000                     # keep the count inside the representation type of the duration
         sns = q * div
         if not (-(1 << 63) <= sns < (1 << 63)):
             sns = 0
@@ -940,10 +949,15 @@ def make_program(rng, prefix, ncases):
         if i < 3:
             # every program starts with plain sequences of scalars (block-wise copied / converted, proxy sequences)
             ty = ('Q', ('A', rng.choice('yycilBLd')))
+        elif i == 3:
+            # ... and has one time point whose duration counts in fewer than 64 bits (what is logged is always 64-bit nanoseconds)
+            tp = ('S', 'std::chrono::system_clock::time_point', [('ns', ('A', 'l'))])
+            ty = rng.choice([tp, ('Q', tp), ('T', [tp, ('A', 'i')]), ('V', [('N',), tp])])
         else:
             ty = g.rand_ty()
         while ty[0] == 'N':
             ty = g.rand_ty()
+        g.narrow_time_points = (i == 3)
         rt = g.realise(ty, top=True)
         val = canon_value_for(rt, g.rand_val(ty))
         statics = []
